@@ -15,21 +15,31 @@ META = {
     "pixel-domain generator), for arbitrary operand lists and an arbitrary shapely/pixel delegate: a mismatch "
     "(including exactly one operand without CRS) never returns and raises the CRS ValueError; a returned result "
     "means all CRSs compared equal; with equal CRSs (any spelling) the result is exactly the raw computation "
-    "re-tagged with the first operand's CRS.  The operation table is matched on every run against the operations "
-    "discovered by introspection of the live modules, and every op x ordered tag pair x geometry kind is compared "
-    "with the real call (verdict, CRS tag, raw shapely / CRS-stripped result).",
+    "re-tagged with the first operand's CRS.  Second part (Model/C01Glue): how an object gets its CRS (Geometry(...) "
+    "clone / GeoJSON-Feature default of EPSG:4326 / explicit argument / refusal, BoundingBox and its static constructors, "
+    "Geometry.transform(crs=...)), CRS == <anything that is not a CRS>, the `== 'epsg:4326' or None` dispatch of "
+    "BoundingBox.aoi / map_bounds, the hemisphere arithmetic of norm_crs('utm-n' / 'utm-s') for every zone, and the CRS "
+    "carried by the result of every single-operand operation of Geometry / BoundingBox, composed with the mismatch theorem "
+    "(a mismatch cannot be laundered through derived operands).  Every op x ordered tag pair x geometry kind is compared "
+    "with the real call (verdict, CRS tag, raw shapely / CRS-stripped result); n-ary operations also along the LENGTH axis "
+    "(8 ... 4097 operands around powers of two, list / tuple / iterator / generator, odd operand first / second / middle / "
+    "last-but-one / last).  Operation tables are not compared structurally with introspection: an unknown public operation "
+    "only triggers a behavioural probe (operands in different CRSs; must depend on the coordinates of both to count).",
     "note": "Trusted: Lean kernel + {propext, Classical.choice, Quot.sound}; shapely and the pixel-grid arithmetic are "
     "parameters (C16 covers the arithmetic); pyproj equality assumed to be an equivalence and the CRS-record "
     "well-formedness (WF) is checked on the run's CRS pool, not proved; converting operations "
     "(project/enclosing/crop/tiles/grid_intersect) re-project or read CRS-less operands as pixel coordinates by "
-    "documented design and are modelled separately (conv_never_mixes).  NOT mirrored in the Lean model (inventory of the "
-    "anchor files): geom.py — force_2d/_geojson_to_shapely/_multigeom (inside the shapely delegate), Geometry.__init__ "
-    "GeoJSON/4326 default, chop_along_antimeridian/projected_lon/clip_lon180 users of intersects/split/multigeom (C07 models "
-    "clip), lonlat_bounds, BoundingBox.transform/buffered/boundary/qr2sample (single operand); crs.py — _make_crs_key/_crs_cache "
-    "(process-global cache; exercised by the cache-poisoning oracle only), CRS.__hash__/pickle/tokenize (C19), CRS.utm/"
-    "_pick_best_crs (uses `&` on a valid-region box), crs_units_per_degree (uses to_crs; C07), the internals of the utm branch "
-    "of norm_crs (zone arithmetic epsg±100); geobox.py — the pixel arithmetic behind pixel_translation (C16), "
-    "GeoBox.from_bbox/from_geopolygon CRS defaulting, footprint, GeoboxTiles._check_linear/_grid_intersect_linear arithmetic.",
+    "documented design and are modelled separately (conv_never_mixes); CRS.utm (pyproj database query) is observed, only the "
+    "epsg +-100 step after it is modelled; 'utm<anything else>' is read as 'utm' by the code as found (modelled: otherSuffix).  "
+    "NOT mirrored in the Lean model (inventory of the anchor files): geom.py — force_2d / _geojson_to_shapely (which feature of a "
+    "FeatureCollection becomes the shape; _multigeom itself is modelled in C07Fix), chop_along_antimeridian / projected_lon "
+    "(shapely intersects / split are parameters of C07's model), BoundingBox.qr2sample / boundary numerics (only their CRS), "
+    "Geometry.explore / svg; crs.py — _make_crs_key/_crs_cache (process-global cache; exercised by the cache-poisoning oracle "
+    "only), CRS.__hash__/pickle/tokenize (C19), CRS.utm/_pick_best_crs (uses `&` on a valid-region box; observation: "
+    "CRS.utm(BoundingBox in a projected CRS spanning two zones) raises CRSMismatchError where a Geometry is converted), "
+    "crs_units_per_degree (uses to_crs; C07); geobox.py — the pixel arithmetic behind pixel_translation (C16), "
+    "GeoBox.from_bbox/from_geopolygon CRS defaulting, footprint, GeoboxTiles._check_linear/_grid_intersect_linear arithmetic, "
+    "single-operand GeoBox operations (C02).",
     "technique": "Lean 4 proof over hand model + exhaustive differential correspondence with real code",
     "design_ref": "DESIGN.md §4 C01",
 }
@@ -347,7 +357,10 @@ class Raw:
         if name == "geom.common_crs":
             return None
         if name == "geom.multigeom":
-            return self.gmod._multigeom(list(ss))  # pylint: disable=protected-access
+            raw_multigeom = getattr(self.gmod, "_multigeom", None)
+            if raw_multigeom is None:   # private helper renamed / inlined: the public route on CRS-less geometries
+                return self.gmod.multigeom([self.gmod.Geometry(x, None) for x in ss]).geom
+            return raw_multigeom(list(ss))
         if name == "geom.unary_union":
             return sops.unary_union(list(ss))
         if name == "geom.intersects":
@@ -652,7 +665,8 @@ class Ctx:
         labels = [e[0] for e in ents]
         differ = any(t != truths[0] for t in truths)
         cdesc = {"op": name, "tags": labels, "kind": case["kind"], "line": case["line"],
-                 "callform": case.get("callform", "positional"), "raws": [ser_raw(r) for r in case["raws"]]}
+                 "callform": case.get("callform", "positional"),
+                 "raws": [ser_raw(r) for r in case["raws"]] if len(case["raws"]) <= 8 else None}   # long streams: rebuilt from `kind`
         exc = info["raised"]
         if case.get("callform", "positional") != "positional" and isinstance(exc, TypeError):
             # this call form is refused by Python's argument binding: nothing was combined (whether it *should* be
@@ -918,10 +932,59 @@ def gen_strict(C: Ctx):
                     es[pos] = odd
                     ks = [("g0", "shift", "far", "shift", "g0")[i] for i in range(n)]
                     C.add(name, es, [gbs[k] for k in ks], "geobox:" + "/".join(ks))
+    gen_long_streams(C, sets, gbs)
+
+
+LONG_QUICK = (8, 9, 33, 64, 65, 66, 67, 129, 257, 1025)
+LONG_THOROUGH = (8, 9, 16, 17, 31, 32, 33, 63, 64, 65, 66, 67, 127, 128, 129, 255, 256, 257, 511, 512, 513, 1023, 1024, 1025,
+                 2049, 4097)
+GBX_CYCLE = ("g0", "shift", "far", "shift", "g0")
+
+
+def gen_long_streams(C: Ctx, sets, gbs):
+    """the LENGTH axis of every n-ary / stream operation: operand lists of 8 … 4097 elements (around powers of two, where
+    a chunked / vectorised / fast-path implementation would switch), all four collection forms (list, tuple, one-shot
+    iterator, generator — `C.add` cycles them), the odd operand at the first / second / middle / last-but-one / last
+    position (a CRS-less one, another CRS, the same CRS in another spelling) and no odd operand at all"""
+    R = C.R
+    rng = R.rng
+    byl = C.pool.by_label
+    e4326, e3857, enone, ewkt = byl["4326"], byl["3857"], byl["none"], byl["4326wkt2"]
+    lengths = LONG_QUICK if R.quick else LONG_THOROUGH
+
+    def rbox(i):
+        x0 = (i % 97) / 8
+        return (x0, -1.0 - (i % 5), x0 + 1.0 + (i % 3) / 4, 2.0 + (i % 7) / 2)
+
+    ops = (("geom.bbox_union", "bbox-long", 10**9), ("geom.bbox_intersection", "bbox-long", 10**9),
+           ("geom.common_crs", "polys-long", 10**9), ("geom.multigeom", "polys-long", 2049),
+           ("geom.unary_union", "polys-long", 1025), ("geom.unary_intersection", "polys-long", 1025),
+           ("geobox.geobox_union_conservative", "geobox-long", 513), ("geobox.geobox_intersection_conservative", "geobox-long", 513))
+    for name, kind, cap in ops:
+        for n in lengths:
+            if n > (cap if not R.quick else min(cap, 1025 if "bbox" in kind or name == "geom.common_crs" else 257)):
+                continue
+            if kind == "bbox-long":
+                raws = [rbox(i) for i in range(n)]
+            elif kind == "polys-long":
+                raws = [sets["polys"][i % 3] for i in range(n)]
+            else:
+                raws = [gbs[GBX_CYCLE[i % 5]] for i in range(n)]
+            positions = [None, 0, 1, n // 2, n - 2, n - 1]
+            for pos in positions:
+                base, odd = rng.choice([(e4326, e3857), (e3857, enone), (enone, e4326), (e4326, ewkt), (e3857, e4326)])
+                es = [base] * n
+                if pos is not None:
+                    es[pos] = odd
+                C.add(name, es, raws, kind)
 
 
 def run_strict(C: Ctx):
+    import sys
+
     R = C.R
+    if sys.getrecursionlimit() < 20000:
+        sys.setrecursionlimit(20000)   # the model's delegate expression of a fold over n operands is nested n deep
     lines = [c["line"] for c in C.cases]
     model = run_driver("C01", lines)
     for case, m in zip(C.cases, model):
@@ -1516,9 +1579,18 @@ def check_discovery(C: Ctx) -> Dict[str, Any]:
     from .c01_discover import discover
 
     found = discover()
-    names = ",".join(sorted(found))
-    C.R.corr("c01 allops", lambda: names, sig="discovery")
+    # the operation table is NOT compared structurally with what introspection finds (a new public helper, a changed
+    # annotation or signature is not a violation): a difference is recorded in the evidence and only triggers the
+    # behavioural probe of `run()` (operands in different CRSs through the undeclared operation)
+    known = set(run_driver("C01", ["c01 allops"])[0].split(","))
+    extra, missing = sorted(set(found) - known), sorted(known - set(found))
+    if extra:
+        C.R.notes.append("operations found by introspection that the model's table does not list (probed behaviourally): " + ", ".join(extra))
+    if missing:
+        C.R.notes.append("operations of the model's table that introspection did not classify as combining (still exercised by name): "
+                         + ", ".join(missing))
     C.R.count("discovered-ops", len(found))
+    C.R.count("discovered-ops-undeclared", len(extra))
     return found
 
 
@@ -1534,8 +1606,10 @@ def probe_undeclared(C: Ctx, name: str) -> Optional[Dict[str, Any]]:
     fn = getattr(owner, m)
 
     def mk(crs, i):
+        from shapely import affinity
+
         return {
-            "Geometry": gm.Geometry(kinds["polygon"] if i == 0 else partners["P"], crs),
+            "Geometry": gm.Geometry(kinds["polygon"] if i == 0 else partners["P"] if i == 1 else affinity.translate(kinds["polygon"], 0.125 * i, 0.25), crs),
             "BoundingBox": gm.BoundingBox(0, 0, 2 + i, 2, crs),
             "GeoBox": gb.GeoBox((8, 8), Affine(0.25, 0, 0.25 * i, 0, -0.25, 2), crs),
         }
@@ -1555,6 +1629,33 @@ def probe_undeclared(C: Ctx, name: str) -> Optional[Dict[str, Any]]:
                         continue
                     if isinstance(out, bool) and not out:
                         continue  # an equality-like answer "different" is fine
+                    # is it a COMBINING operation at all?  The answer must depend on the coordinates of both operands;
+                    # a helper that formats / inspects / compares its arguments does not mix reference systems
+                    def canon(v):
+                        if isinstance(v, (gm.Geometry, gm.BoundingBox)):
+                            return repr(v)
+                        if isinstance(v, gb.GeoBox):
+                            return (v.shape, tuple(v.affine)[:6], str(v.crs))
+                        if isinstance(v, (list, tuple)):
+                            return [canon(x) for x in v]
+                        return repr(v)
+
+                    depends = []
+                    for which in (0, 1):
+                        a2, b2 = (mk(ta, 5)[ka], b) if which == 0 else (a, mk(tb, 7)[kb])
+                        try:
+                            with warnings.catch_warnings():
+                                warnings.simplefilter("ignore")
+                                o2 = fn(*((a2, b2) if len(args) == 2 else ([a2, b2],)))
+                                if hasattr(o2, "__next__"):
+                                    o2 = list(o2)
+                            depends.append(canon(o2) != canon(out))
+                        except Exception:  # pylint: disable=broad-except
+                            depends.append(True)
+                    if not all(depends):
+                        C.R.notes.append(f"undeclared operation {name} accepts operands in different CRSs but its result does not "
+                                         "depend on the coordinates of both: not a combining operation")
+                        continue
                     return {"key": f"mixed-crs-accepted:{name}",
                             "case": {"op": name, "tags": [ta, tb], "kinds": [ka, kb], "undeclared": True},
                             "what": f"undeclared operation {name} returned {type(out).__name__} for operands in "
@@ -1581,6 +1682,9 @@ def run(R: Run):
     check_numeric_spellings(C)
     check_access_order(C)
     check_norm_crs(C)
+    from .c01_glue import run_glue
+
+    run_glue(C)
     R.exhaustive = False
     R.extra["ops_in_table"] = len(C.specs)
     R.extra["ops_discovered"] = len(found)
@@ -1635,6 +1739,8 @@ def replay(R: Run, rec) -> int:
     gbs = geoboxes()
     if case.get("raws"):
         raws = [deser_raw(x) for x in case["raws"]]
+    elif kind.startswith("geobox-long"):
+        raws = [gbs[GBX_CYCLE[i % 5]] for i in range(len(ents))]
     elif kind.startswith("geobox:"):
         raws = [gbs[k] for k in kind.split(":", 1)[1].split("/")][: max(len(ents), 1)]
     elif kind == "geobox":
